@@ -34,10 +34,29 @@ pub struct Case {
 
 static COUNTER: AtomicU64 = AtomicU64::new(0);
 
+/// scratch base: $VERIF_TMP if set, else a tmpfs (/dev/shm) when it is writable (a run writes and removes many
+/// small files, which a journalling file system turns into synchronous disk writes), else /tmp
+pub fn scratch_base() -> String {
+    static BASE: std::sync::OnceLock<String> = std::sync::OnceLock::new();
+    BASE.get_or_init(|| {
+        if let Ok(b) = std::env::var("VERIF_TMP") {
+            return b;
+        }
+        let probe = format!("/dev/shm/stamverif-probe5-{}", std::process::id());
+        if std::fs::create_dir_all(&probe).is_ok() {
+            let _ = std::fs::remove_dir_all(&probe);
+            "/dev/shm".to_string()
+        } else {
+            "/tmp".to_string()
+        }
+    })
+    .clone()
+}
+
 pub struct TempDir(pub PathBuf);
 impl TempDir {
     pub fn new(tag: &str) -> TempDir {
-        let base = std::env::var("VERIF_TMP").unwrap_or_else(|_| "/tmp".to_string());
+        let base = scratch_base();
         let n = COUNTER.fetch_add(1, Ordering::Relaxed);
         let p = PathBuf::from(base).join(format!("stamverif-{}-{}-{}", std::process::id(), tag, n));
         let _ = std::fs::create_dir_all(&p);
@@ -158,7 +177,7 @@ impl Property for C05 {
         ]
     }
     fn cases(&self, tier: Tier) -> u64 {
-        tier.pick(150_000, 1_500_000)
+        tier.pick(1_000_000, 10_000_000)
     }
     fn strategy(&self, tier: Tier) -> BoxedStrategy<Case> {
         let cfg = HistCfg {
